@@ -191,7 +191,12 @@ func (c *Ctx) rulesC10() {
 	}
 
 	// C10.dec
-	if f := c.fn(pr + ":Client.clockFromUpdate"); f != nil {
+	decoder := c.fnOpt(pr + ":Client.clockFromUpdate")
+	if decoder == nil {
+		// decoded in place
+		decoder = c.fn(pr + ":Client.clockUpdate")
+	}
+	if f := decoder; f != nil {
 		k := 0
 		for _, b := range f.Blocks {
 			for _, ins := range b.Instrs {
@@ -250,6 +255,7 @@ func (c *Ctx) rulesC10() {
 		ups := c.sitesIn(f, pr+":NetMachInternal.UpdateClock")
 		c.check(len(ups) == 1, "C10.chk", "clockUpdate applies the clock at one site", f.Pos(), fmt.Sprintf("%d UpdateClock sites", len(ups)))
 		cfu := c.sitesIn(f, pr+":Client.clockFromUpdate")
+		inPlace := c.fnOpt(pr+":Client.clockFromUpdate") == nil
 		for i, s := range ups {
 			okg := false
 			gs := guardsOf(s.Block())
@@ -275,6 +281,26 @@ func (c *Ctx) rulesC10() {
 				}
 				// sumSide = Checksum(...) whose args derive from clockFromUpdate's results
 				call, ok := sumSide.(*ssa.Call)
+				if ok && inPlace && call.Call.StaticCallee() == cs {
+					// no decoder function: the values handed to UpdateClock are the
+					// ones that were checksummed
+					all := len(s.Common().Args) == 4
+					for _, ua := range s.Common().Args[1:] {
+						fed := false
+						for _, ar := range call.Call.Args {
+							if derives(ar, func(x ssa.Value) bool { return x == ua }) {
+								fed = true
+							}
+						}
+						if !fed {
+							all = false
+						}
+					}
+					if all {
+						okg = true
+					}
+					continue
+				}
 				if !ok || len(cfu) != 1 {
 					continue
 				}
@@ -326,6 +352,9 @@ func (c *Ctx) rulesC10() {
 				if len(cfu) != 1 || !derives(ar, func(x ssa.Value) bool { return x == cfu[0].Value() }) {
 					okv = false
 				}
+			}
+			if inPlace {
+				okv = okg
 			}
 			c.check(okv, "C10.chk", "UpdateClock receives the decoded values"+nth(i), s.Pos(), "arguments must be clockFromUpdate's results")
 		}
